@@ -137,6 +137,28 @@ def gen_maps(tu, c, t):
             tu.add('w_named_%d' % i, '%s& o, const %s& a' % (E, A), 'o = a.%s;' % nm, kind='idxget', slot=i)
         if c not in ('Q', 'C4'):
             tu.add('w_ptr', '%s& o, const %s& a' % (A, A), 'const %s* p = a.getValue(); %s* q = o.getValue(); for (int i = 0; i < %d; i++) q[i] = p[i];' % (E, E, n), kind='map', perm=list(range(n)))
+    # constructors / assignments from a smaller aggregate: the named slots are copied, the others get the documented constant
+    if t in 'fd':
+        V3 = 'Vec3<%s>' % E
+        if c == 'S6':
+            tu.add('w_ctor_xyz', '%s& out, const %s& s0, const %s& s1, const %s& s2' % (A, E, E, E), 'out = %s(s0, s1, s2);' % A, kind='mapz', src='scalars', perm=[0, 1, 2, 0.0, 0.0, 0.0])
+            tu.add('w_ctor_vec3', '%s& out, const %s& a' % (A, V3), 'out = %s(a);' % A, kind='mapz', src='agg', perm=[0, 1, 2, 0.0, 0.0, 0.0])
+            tu.add('w_assign_vec3', '%s& out, const %s& a' % (A, V3), 'out = a;', kind='mapz', src='agg', perm=[0, 1, 2, 0.0, 0.0, 0.0])
+            tu.add('w_ctor_default', '%s& out' % A, 'out = %s();' % A, kind='mapz', src='agg', perm=[0.0] * 6)
+        if c == 'V4':
+            tu.add('w_ctor_vec3', '%s& out, const %s& a' % (A, V3), 'out = %s(a);' % A, kind='mapz', src='agg', perm=[0, 1, 2, 1.0])
+        if c == 'M44':
+            # Matrix44(Matrix33 r, Vec3 t): r in the upper-left block, t in the last row, (0,0,0,1) as last column
+            pm = []
+            for i in range(4):
+                for j in range(4):
+                    pm.append(('a1', i * 3 + j) if (i < 3 and j < 3) else ('a2', j) if (i == 3 and j < 3) else (1.0 if i == 3 else 0.0))
+            tu.add('w_ctor_rt', '%s& out, const Matrix33<%s>& r, const %s& tt' % (A, E, V3), 'out = %s(r, tt);' % A, kind='mapz', src='multi', perm=pm)
+        if c in MATDIM:
+            tu.add('w_ctor_default', '%s& out' % A, 'out = %s();' % A, kind='mapz', src='agg', perm=[1.0 if i // MATDIM[c] == i % MATDIM[c] else 0.0 for i in range(n)])
+            tu.add('w_makeIdentity', '%s& out' % A, 'out.makeIdentity();', kind='mapz', src='agg', perm=[1.0 if i // MATDIM[c] == i % MATDIM[c] else 0.0 for i in range(n)])
+        if c in ('C3', 'C4', 'V2', 'V3', 'V4') and False:
+            pass
     # converting constructors (component-wise cast)
     for t2 in ('f', 'd', 'i', 'h', 's'):
         if t2 == t: continue
@@ -281,9 +303,19 @@ def check_tu(rep, an, tu, c, t):
                 missing = [(b, agg.slot_name(c, i)) for b in ('a1', 'a2') for i in range(n) if (b, i * sz) not in dep]
                 rep.ob(oid, 'R04.eq', VIOLATED, 'result is not the %s over all slots of the scalar predicate; slots not examined: %s; found %s' %
                        ('disjunction' if op == 'ne' else 'conjunction', missing, T.show(gb, 5)), where)
-        elif kind in ('map', 'mapsc', 'mapout', 'idxget', 'idxset', 'conv', 'mapq'):
+        elif kind in ('map', 'mapsc', 'mapout', 'idxget', 'idxset', 'conv', 'mapq', 'mapz'):
             bad = None
-            if kind == 'map':
+            if kind == 'mapz':
+                got = slots_out(S, 'a0', n, t)
+                for i, src in enumerate(m['perm']):
+                    if isinstance(src, float): exp = T.fp_from_value(lt, src); what = 'the constant %g' % src
+                    elif isinstance(src, tuple): exp = agg.slot_in(src[0], src[1], t); what = 'slot %d of argument %s' % (src[1], src[0])
+                    elif m['src'] == 'scalars': exp = agg.scalar_in('a%d' % (1 + src), t); what = 'argument %d' % src
+                    else: exp = agg.slot_in('a1', src, t); what = 'source slot %d' % src
+                    if got[i] is not exp:
+                        bad = 'slot %s holds %s, expected %s' % (agg.slot_name(c, i), T.show(got[i]), what); break
+                if not bad and not written_exact(S, 'a0', n, t): bad = 'writes outside the result slots'
+            elif kind == 'map':
                 got = slots_out(S, 'a0', n, t)
                 for i, src in enumerate(m['perm']):
                     if got[i] is not a_in('a1', src):
@@ -371,6 +403,49 @@ struct F_dsub3 { float d[3][3]; float* operator[](int i){return d[i];} const flo
     for e, v in wit:
         lines.append('static_assert(%s(%s), "W%d trait %s");' % ('' if v else '!', e, n, e.replace('"', ''))); n += 1
     return '\n'.join(lines), n
+
+def check_consteval(rep, ws):
+    """constant-evaluated accessors: under C++23 (`__cpp_if_consteval`) the const operator[] of Vec2/3/4 takes a branch of its
+    own, which no run-time translation unit contains.  Witnesses: for a constexpr vector built from distinct values,
+    v[i] is slot i - as static_asserts compiled with -std=c++2b (and c++20, where the branch is absent but the named
+    members and constructors are still constant-evaluated)."""
+    import re
+    lines = ['#include <ImathVec.h>', '#include <ImathColor.h>', 'using namespace IMATH_NAMESPACE;']
+    n = 0
+    names = {2: 'xy', 3: 'xyz', 4: 'xyzw'}
+    for d in (2, 3, 4):
+        for E in ('int', 'float', 'double', 'short', 'long'):
+            vals = [10 * (k + 1) + k for k in range(d)]
+            v = 'c_%d_%s' % (d, E)
+            lines.append('constexpr Vec%d<%s> %s(%s);' % (d, E, v, ', '.join('%s(%d)' % (E, x) for x in vals)))
+            for i in range(d):
+                lines.append('static_assert(%s.%s == %s(%d), "W%d Vec%d<%s> member %s");' % (v, names[d][i], E, vals[i], n, d, E, names[d][i])); n += 1
+    cxx23 = len(lines)
+    lines.append('#ifdef __cpp_if_consteval')
+    for d in (2, 3, 4):
+        for E in ('int', 'float', 'double', 'short', 'long'):
+            vals = [10 * (k + 1) + k for k in range(d)]
+            v = 'c_%d_%s' % (d, E)
+            for i in range(d):
+                lines.append('static_assert(%s[%d] == %s(%d), "W%d constant-evaluated Vec%d<%s>::operator[](%d) const is not slot %s");' % (v, i, E, vals[i], n, d, E, i, names[d][i])); n += 1
+    lines.append('#else')
+    lines.append('#error "W-1 the C++23 witnesses need __cpp_if_consteval"')
+    lines.append('#endif')
+    p = ws.path('c04_consteval.cpp')
+    with open(p, 'w') as f: f.write('\n'.join(lines) + '\n')
+    r = subprocess.run(['clang++', '-std=c++2b', '-fsyntax-only', '-ferror-limit=0', '-Wno-everything'] + ws.include_flags() + [p], stdout=subprocess.PIPE, stderr=subprocess.STDOUT, text=True)
+    failed = {}; other = []
+    for line in r.stdout.splitlines():
+        m = re.search(r'static_assert failed.*"W(\d+) ([^"]*)"', line)
+        if m: failed[int(m.group(1))] = m.group(2)
+        elif 'error:' in line: other.append(line)
+    if other:
+        rep.ob('constant evaluation::witness-TU', 'R04.map', UNDECIDED, 'witness TU does not compile as C++23: ' + other[0][:300]); return 0
+    rep.ob('constant evaluation::witnesses', 'R04.map', VIOLATED if failed else HOLDS,
+           ('compile-time witnesses failed: ' + '; '.join(failed[k] for k in sorted(failed))[:600]) if failed else '%d static_assert witnesses compiled as C++23: named members and constant-evaluated operator[] are slot-identity maps' % n,
+           'src/Imath/ImathVec.h (operator[] const, `if consteval` branch)')
+    rep.extra['consteval_witnesses'] = n
+    return n
 
 def check_layout(rep, ws, types_of):
     src, n = layout_tu(types_of)
@@ -530,6 +605,8 @@ def main(rep, ws, tier):
     for tu, c, t in index:
         check_tu(rep, an[tu], tu, c, t)
     check_layout(rep, ws, types_of)
+    ncw = check_consteval(rep, ws)
+    rep.floor('constant-evaluation witnesses', ncw, 90)
     check_io(rep, ws, an[io_tu], io_tu)
     ncw = sum(1 for o in rep.obs if o['rule'] == 'R04.cw')
     rep.floor('component-wise operator instances', ncw, 280 if tier == 'quick' else 640)
